@@ -284,6 +284,8 @@ func (fr *Frame) execInstr(st *State, instr ssa.Instruction) {
 	case *ssa.Send:
 		fr.top.note("channel send: only the package's channel invariant is checked, the transfer itself is not modelled, in " + fr.fn.Name())
 		fr.chanInv(st, x.Chan.Type().Underlying().(*types.Chan).Elem(), fr.val(st, x.X), True, true, x.Pos())
+		// "callsite send:" / "oncall send:" hooks: arg0 is the channel, arg1 the value sent
+		fr.callHooks(st, "send", []Val{fr.val(st, x.Chan), fr.val(st, x.X)}, x.Pos())
 	case *ssa.Range:
 		if _, ok := x.X.Type().Underlying().(*types.Map); !ok {
 			panic(unsupported("range over string"))
